@@ -2,9 +2,9 @@ SPECIFICATION Spec
 CONSTANTS
   MaxId = 3
   MaxH = 3
-  MaxConn = 2
+  MaxConn = 3
   MaxRecv = 1
   MaxHist = 99
-VIEW View
-ACTION_CONSTRAINT EmitBehaviour
+VIEW TourView
+ACTION_CONSTRAINT EmitEdge
 CHECK_DEADLOCK FALSE
